@@ -2,12 +2,12 @@
 //! installable callback -- used by an external deterministic scheduler. Compiles to nothing without the feature.
 use std::sync::RwLock;
 
-type Hook = Box<dyn Fn(&'static str, u64) + Send + Sync>;
+type Hook = std::sync::Arc<dyn Fn(&'static str, u64) + Send + Sync>;
 static HOOK: RwLock<Option<Hook>> = RwLock::new(None);
 thread_local! { static PARTICIPATES: std::cell::Cell<bool> = const { std::cell::Cell::new(false) }; }
 
 /// installs (or removes) the callback receiving every hook point reached by participating threads
-pub fn set_hook(h: Option<Hook>) { *HOOK.write().unwrap() = h; }
+pub fn set_hook(h: Option<Box<dyn Fn(&'static str, u64) + Send + Sync>>) { *HOOK.write().unwrap() = h.map(|b| -> Hook { b.into() }); }
 /// marks the current thread as (not) reporting its hook points
 pub fn participate(on: bool) { PARTICIPATES.with(|p| p.set(on)); }
 /// tells if the current thread reports its hook points
@@ -15,7 +15,9 @@ pub fn participates() -> bool { PARTICIPATES.with(|p| p.get()) }
 #[inline]
 pub fn point(tag: &'static str, v: u64) {
     if PARTICIPATES.with(|p| p.get()) {
-        if let Some(h) = HOOK.read().unwrap().as_ref() { h(tag, v) }
+        // the callback may block for long (it is a scheduler): call it outside the lock
+        let h = HOOK.read().unwrap().clone();
+        if let Some(h) = h { h(tag, v) }
     }
 }
 
